@@ -7,7 +7,7 @@ import JsonV.Lemmas.CanonSort
 
 namespace JsonV.Lemmas.CanonForm
 open JsonV JsonV.Canon JsonV.Model JsonV.Model.Utf8
-open JsonV.Fmt hiding strOK respell
+open JsonV.Fmt
 open JsonV.Lemmas.CanonTree JsonV.Lemmas.CanonAtom JsonV.Lemmas.CanonSort
 
 /-! ### predicates on trees -/
